@@ -22,8 +22,15 @@
 package c03
 
 import (
+	"context"
+	"fmt"
 	"math/rand"
+	"runtime/debug"
+	"sync"
+	"sync/atomic"
 	"time"
+
+	utilruntime "k8s.io/apimachinery/pkg/util/runtime"
 
 	"verif/mon"
 	"verif/props/reg"
@@ -97,7 +104,33 @@ func cases(tier string) int {
 	return d + s + m
 }
 
+// In production a panic inside a workqueue.ParallelizeUntil worker is re-raised by HandleCrash and kills the
+// controller process. In the harness it is handed to the running case (which records a violation) so that the rest
+// of the batch still runs. Never restored: a worker's HandleCrash runs after its wg.Done(), i.e. possibly after the
+// reconcile that spawned it has returned.
+var (
+	crashOnce sync.Once
+	panicSink atomic.Pointer[func(v any, stack string)]
+)
+
+func setPanicSink(f func(v any, stack string)) { panicSink.Store(&f) }
+
+func installCrashHandler() {
+	crashOnce.Do(func() {
+		utilruntime.ReallyCrash = false
+		utilruntime.PanicHandlers = append([]func(context.Context, any){func(_ context.Context, v any) {
+			if f := panicSink.Load(); f != nil {
+				(*f)(v, string(debug.Stack()))
+			}
+		}}, utilruntime.PanicHandlers...)
+	})
+}
+
 func run(r *mon.Report, tier string, idx int, rng *rand.Rand) {
+	installCrashHandler()
+	setPanicSink(func(v any, stack string) {
+		r.Violate("panic:"+panicSite(stack), fmt.Sprintf("panic in a worker goroutine: %v", v), map[string]any{"case": idx}, trimStack(stack))
+	})
 	kind, ord := kindOf(tier, idx)
 	t0 := time.Now() // evidence only (cost per case kind); no oracle reads the wall clock
 	defer func() { r.Count(kind+"_wall_ms", int(time.Since(t0).Milliseconds())) }()
